@@ -68,4 +68,10 @@ Proof.
   { intros l c Hc. induction l; simpl; [field; auto|rewrite IHl; field; auto]. }
   rewrite E by auto. rewrite <- Zall_samples by auto. field. auto.
 Qed.
-Print Assumptions C02_neff.
+
+(* the shell volume never exceeds the bound volume: the kept fraction is at most one *)
+Theorem vol_le_bound s : 0 <= bv s -> 0 < ns s -> n s <= ns s -> vol s <= bv s.
+Proof.
+  intros Hb Hns Hn. unfold vol. apply Qle_shift_div_r; auto.
+  rewrite (Qmult_comm (bv s) (n s)), (Qmult_comm (bv s) (ns s)). now apply Qmult_le_compat_r.
+Qed.
